@@ -138,15 +138,16 @@ REG = {
     },
     "C05": {
         "level": "exploration",
-        "technique": "model-based property testing (rapid): arrival histories (orders, duplicates, impossible numbers, two interleaved transfers, plain messages, segmentations) against a reference reassembly model, checked after every read; exhaustive orders x single duplicates for N <= 5",
+        "technique": "model-based property testing (rapid): arrival histories (orders, duplicates, impossible numbers, two interleaved transfers, plain messages, segmentations) against a reference reassembly model, checked after every read; exhaustive orders x single duplicates for N <= 5; plus live-server conversations (child process, default sub-package filter) made mostly of transfers in 1..9 packets, judged by the C06 conversation model (each transfer reaches the handlers once, complete, and is answered once)",
         "level_text": "Histories are generated from the property's grammar (packet 1 first, permutation of 2..N, duplicates of 2..N, impossible numbers 0 / > N, a second transfer, plain frames) and cut per frame, all in one read or at random; after every read the completed-message count per transfer must equal the reference model's and each completed body must be the packet bodies in number order. Both feeding styles (caller-owned slices, reader-style reused buffer).",
         "level_note": "Extractor level through the hook; the socket-level path (one reply per completed transfer, callbacks) is C06's. Packet bodies are non-empty as the property states.",
         "rule": "rapid histories; non-trivial = (N >= 3 and some packet arrives out of ascending order) or a duplicate or an impossible packet is present",
         "assumptions": ["reference model in ext/c05_test.go (reasm) written from the property statement"],
-        "required_buckets": {"any": ["duplicates", "impossible_packet", "out_of_order", "two_transfers", "reused_buffer", "cuts_per_frame", "cuts_all_in_one", "cuts_random", "N_>=3", "transfer_restarted"]},
+        "required_buckets": {"any": ["duplicates", "impossible_packet", "out_of_order", "two_transfers", "reused_buffer", "cuts_per_frame", "cuts_all_in_one", "cuts_random", "N_>=3", "transfer_restarted", "transfer_of_one_packet", "transfer_of_5..9_packets"]},
         "parts": [
             rapid("ext", "TestC05", 10000, 100000),
             enum("ext", "TestC05Enum", 1, 1),
+            rapid("sys", "TestC05Socket", 30, 400, qs=8, ts=16),
         ],
     },
     "C09": {
